@@ -143,6 +143,12 @@ Definition obs_of (r : err) : word :=
 
 Definition code_ok (c : Z) : bool := (0 <=? c) && (c <? 4294967296).
 
+(* src 8: the server ends the stream (trailers-only) after the client created it but BEFORE the
+   client writes the request: c = 0 unknown method -> UNIMPLEMENTED, c > 0 a handler that
+   returns status c without reading.  The write then fails (stream done), SendMsg reports
+   io.EOF, and invoke / the application go on to RecvMsg, which yields the server's status. *)
+Definition early_code (c : Z) : Z := if c =? 0 then 12 else c.
+
 (* op [1; depth; kind; c]            toRPCErr(NewStreamError^depth(mk_err kind c))
    op [2; src; ff; api; kind; c]     one RPC (api 0 Invoke, 1 NewStream/SendMsg/RecvMsg) *)
 Definition run_op (op : word) : option word :=
@@ -151,9 +157,10 @@ Definition run_op (op : word) : option word :=
     if (0 <=? d) && (d <=? 8) && code_ok c then Some (obs_of (toRPCErr (wrap_nse (Z.to_nat d) (mk_err kind c))))
     else None
   | [2; src; ff; api; kind; c] =>
-    if code_ok c && (1 <=? src) && (src <=? 7) && negb (src =? 5) then
+    if code_ok c && (1 <=? src) && (src <=? 8) && negb (src =? 5) then
       if src =? 6 then Some (obs_of (if c =? 0 then ENil else EStatus c))
       else if src =? 7 then Some (obs_of (EStatus (if z2b ff then 14 else 4)))
+      else if src =? 8 then Some (obs_of (EStatus (early_code c)))
       else Some (obs_of (rpc src (z2b ff) (mk_err kind c)))
     else None
   | _ => None
@@ -174,8 +181,9 @@ Definition run (cfg : word) (ops : list word) : option (list word) := run_ops op
              error (status.FromError ok), i.e. it carries a gRPC status code
    clause 2: a status error with an A54-restricted code from the picker, the config selector
              or per-RPC credentials is surfaced as INTERNAL
-   clause 3: a status sent by the server handler (data plane) arrives with its own code,
-             restricted or not; the RPC succeeds exactly when no error was injected
+   clause 3: a status sent by the server (data plane) arrives with its own code, restricted or
+             not - also when the server ended the stream before the request was written;
+             the RPC succeeds exactly when no error was injected
    clause 6: REFUTED (narrow): a config selector returning io.EOF makes Invoke/NewStream
              return bare io.EOF
    (note, no clause: an error value whose GRPCStatus() is a non-nil Status with code OK is
@@ -211,6 +219,7 @@ Definition clause_op (k : Z) (op o : word) : list (Z * Z * bool) :=
     if src =? 6 then
       [(3, k, if c =? 0 then is_nil_obs o else is_status_obs o && (code_obs o =? c))]
     else if src =? 7 then [(1, k, is_status_obs o)]
+    else if src =? 8 then [(1, k, is_status_obs o); (3, k, code_obs o =? early_code c)]
     else
       let e := mk_err kind c in
       if is_nil_err e then [(3, k, is_nil_obs o)] else clause_rpc k src e o
